@@ -518,6 +518,40 @@ Section AfterLoopFlat.
     split; [exact EN | split; [exact ED|]].
     unfold cond_exp. rewrite EN, ED. reflexivity.
   Qed.
+
+  (* the same test in two pieces, so that the part common to all goals of a program (types,
+     masses, systems) is evaluated once *)
+  Definition check_base (fp : flatprog) (T : tenv) (Ss : list sysd) : bool :=
+    check_types fp T && fp_mass_one fp && forallb (sys_ok fp T) Ss.
+  Definition check_part (T : tenv) (G' : cond) (M : poly) (Ss : list sysd)
+             (c0N : Qc) (tsN : list term) (fN : epoly Qc_cring) (spN : list Qc)
+             (c0D : Qc) (tsD : list term) (fD : epoly Qc_cring) (spD : list Qc) : bool :=
+    forallb (term_ok Ss) tsN && forallb (term_ok Ss) tsD
+    && match arith T (CNot G') with
+       | Some q => pequiv T (terms_poly c0D tsD) q && pequiv T (terms_poly c0N tsN) (pmul M q)
+       | None => false
+       end
+    && check_comb Ss c0N tsN fN spN && check_comb Ss c0D tsD fD spD.
+
+  Lemma check_exit_of_split fp T G' M Ss c0N tsN fN spN c0D tsD fD spD :
+    check_base fp T Ss = true -> check_part T G' M Ss c0N tsN fN spN c0D tsD fD spD = true ->
+    check_exit fp T G' M Ss c0N tsN fN spN c0D tsD fD spD = true.
+  Proof.
+    unfold check_base, check_part, check_exit. intros Hb Hp. rewrite Hb. cbn [andb]. exact Hp.
+  Qed.
+
+  Theorem check_exit_split_sound fp T G' M Ss c0N tsN fN spN c0D tsD fD spD :
+    cmom_ok law cmom ->
+    check_base fp T Ss = true -> check_part T G' M Ss c0N tsN fN spN c0D tsD fD spD = true ->
+    forall s0, init_ok fp T s0 -> forall n,
+      let d := frun law fp n s0 in
+      pw1 fN spN n = E d (fun s => ind (negb (holds G' s)) * eval_poly M s) /\
+      pw1 fD spD n = prob d (fun s => negb (holds G' s)) /\
+      pw1 fN spN n / pw1 fD spD n = cond_exp d (fun s => negb (holds G' s)) (eval_poly M).
+  Proof.
+    intros Hc Hb Hp. apply (check_exit_sound fp T G' M Ss c0N tsN fN spN c0D tsD fD spD Hc).
+    apply check_exit_of_split; assumption.
+  Qed.
 End AfterLoopFlat.
 
 (* ------------------------------------------------------------------------------------ *)
